@@ -157,6 +157,7 @@ func C02(ctx *core.Ctx) int {
 			}
 		}
 		offDecChecks(ctx, pc, cc, st)
+		reuseChecks(ctx, pc, cc, st) // which packet a reused object holds afterwards is part of "the original field values"
 	})
 	cov := st.coverage("same cells and messages as C01; every emitted decoder is fed the *reference* encoding of every message, alone and followed by trailing bytes (ffffff, 00, a second copy of the message); "+
 		"oracle: decoded members equal the message (fixed strings trimmed, length/checksum members = wire values), read position = message length, re-encoding reproduces the bytes. distinct_nontrivial = distinct decode observations", cases)
@@ -734,6 +735,18 @@ func lengthPrograms() []*dsl.Program {
 		r := &dsl.Program{Name: "L/narrow-neighbour-" + t, Packets: append([]*dsl.Packet{dsl.Root("Msg", dsl.Sc("u8", "Kind"), dsl.Lo(t, "Len", "Body"), dsl.Sc("u8", "Guard"), dsl.Mt("Kind", "Body", dsl.K("Beta", "1"), dsl.K("Empty", "2")))}, pay()...)}
 		r.Opts = dsl.TargetOpts("glnarrow" + t)
 		out = append(out, r)
+		// the long type spelling on the length field, in both attribute placements
+		for _, pre := range []bool{false, true} {
+			lf := dsl.Lo(t, "Len", "Body")
+			lf.Alias, lf.Prefixed = true, pre
+			sp := "inline"
+			if pre {
+				sp = "prefixed"
+			}
+			a := &dsl.Program{Name: "L/alias-" + t + "-" + sp, Packets: append([]*dsl.Packet{dsl.Root("Msg", dsl.Sc("u16", "Kind"), lf, dsl.Mt("Kind", "Body", dsl.K("Alpha", "1"), dsl.K("Empty", "3")), dsl.Sc("u8", "After"))}, pay()...)}
+			a.Opts = dsl.TargetOpts("glalias" + t + sp)
+			out = append(out, a)
+		}
 	}
 	return out
 }
@@ -822,6 +835,18 @@ func checksumPrograms() []*dsl.Program {
 		mk("inline-only-"+t, dsl.Root("Msg", dsl.Sc("u32", "Seq"), dsl.Ds("Text"), dsl.In("Inner", dsl.Sc("u8", "X"), dsl.Ck(t, "Sum", "SUM"+strings.ToUpper(t)), dsl.Sc("u8", "Y"))))
 	}
 	mk("inline-in-inline-only", dsl.Root("Msg", dsl.Sc("u16", "Seq"), dsl.In("Outer", dsl.Ds("Text"), dsl.In("Inner", dsl.Sc("u8", "X"), dsl.Ck("u32", "Sum", "SUMU32")))))
+	// the long type spellings on calculated fields, in both attribute placements
+	for _, t := range []string{"u8", "u16", "u64", "i32"} {
+		for _, pre := range []bool{false, true} {
+			ck := dsl.Ck(t, "Sum", "SUM"+strings.ToUpper(t))
+			ck.Alias, ck.Prefixed = true, pre
+			sp := "inline"
+			if pre {
+				sp = "prefixed"
+			}
+			mk("alias-"+t+"-"+sp, dsl.Root("Msg", dsl.Sc("u32", "Seq"), dsl.Ds("Text"), ck, dsl.Sc("u8", "After")))
+		}
+	}
 	// one algorithm name on fields of different widths (an attribute shared per name would give them one width)
 	mk("shared-name-unregistered", dsl.Root("Msg", dsl.Ck("u32", "SumA", "NOSUCHX"), dsl.Sc("u8", "A"), dsl.Ck("u8", "SumB", "NOSUCHX"), dsl.Ck("u16", "SumC", "NOSUCHX"), dsl.Sc("u8", "B"), dsl.Ob("Other", "")),
 		dsl.Pk("Other", dsl.Ck("u64", "SumD", "NOSUCHX")))
